@@ -29,8 +29,33 @@ func fixture(rel string) []byte {
 	return b
 }
 
-// armoredPGPKey builds a fresh armored public key with the repository's own writer.
+// armoredPGPKey returns one of the pre-generated armored public keys (harness/testdata/pgp;
+// written once by `verifharness mkfixtures` with the repository's own OpenPGP writer).
+// Pre-generated because crypto/rsa key generation is deliberately non-deterministic even
+// with a deterministic random source, and every case stream must replay exactly from its seed.
 func armoredPGPKey(r *Rng, withCRC bool) []byte {
+	b, err := fixturesFS.ReadFile(fmt.Sprintf("testdata/pgp/key%d.asc", 1+r.Intn(3)))
+	if err != nil {
+		fmt.Fprintln(os.Stderr, "embedded fixture:", err)
+		os.Exit(1)
+	}
+	if !withCRC {
+		// drop the "=XXXX" checksum line
+		lines := bytes.Split(b, []byte("\n"))
+		var keep [][]byte
+		for _, l := range lines {
+			if len(l) == 5 && l[0] == '=' {
+				continue
+			}
+			keep = append(keep, l)
+		}
+		b = bytes.Join(keep, []byte("\n"))
+	}
+	return b
+}
+
+// freshArmoredPGPKey builds a new armored public key with the repository's own writer.
+func freshArmoredPGPKey(r *Rng) []byte {
 	cfg := &packet.Config{RSABits: 1024, Rand: r}
 	e, err := openpgp.NewEntity("Test User", "c07", "test@example.org", cfg)
 	if err != nil {
@@ -46,20 +71,7 @@ func armoredPGPKey(r *Rng, withCRC bool) []byte {
 	w, _ := armor.Encode(&out, "PGP PUBLIC KEY BLOCK", nil)
 	w.Write(raw.Bytes())
 	w.Close()
-	b := out.Bytes()
-	if !withCRC {
-		// drop the "=XXXX" checksum line
-		lines := bytes.Split(b, []byte("\n"))
-		var keep [][]byte
-		for _, l := range lines {
-			if len(l) == 5 && l[0] == '=' {
-				continue
-			}
-			keep = append(keep, l)
-		}
-		b = bytes.Join(keep, []byte("\n"))
-	}
-	return b
+	return out.Bytes()
 }
 
 type c07Content struct {
